@@ -753,6 +753,13 @@ def setup(productName, version=None, prefTags=None, productRoot=None,
                               (productName, extra, ",".join(prefTags + postTags), version), file=utils.stdwarn)
 
         #
+        # Extra environment variables that EUPS uses
+        #
+        if not fwd and productName == "eups":
+            for k in ("EUPS_PATH", "EUPS_PKGROOT", "EUPS_SHELL",):
+                if k in os.environ:
+                    del os.environ[k]
+        #
         # Set new variables
         #
         for key, val in os.environ.items():
@@ -778,13 +785,6 @@ def setup(productName, version=None, prefTags=None, productRoot=None,
                 cmd = "echo \"%s\"" % cmd
 
             cmds += [cmd]
-        #
-        # Extra environment variables that EUPS uses
-        #
-        if not fwd and productName == "eups":
-            for k in ("EUPS_PATH", "EUPS_PKGROOT", "EUPS_SHELL",):
-                if k in os.environ:
-                    del os.environ[k]
         #
         # unset ones that have disappeared
         #
